@@ -46,6 +46,18 @@ def parse_sc(value):
 def serialize_sc(value):
     CALLS.append(("serialize", repr(value)))
     return value.raw if isinstance(value, MyScalar) else value
+
+
+def parse_sc2(value):
+    CALLS.append(("parse2", repr(value)))
+    if isinstance(value, MyScalar):
+        return value
+    return MyScalar(value)
+
+
+def serialize_sc2(value):
+    CALLS.append(("serialize2", repr(value)))
+    return value.raw if isinstance(value, MyScalar) else value
 '''
 
 
@@ -56,8 +68,12 @@ def schema_text():
     q = "\n".join(f"  v{i}(x: {s.replace('T', 'Sc')}): String\n  in{i}(x: I{i}): String" for i, s in enumerate(shapes))
     return f"""
 scalar Sc
+scalar Sc2
 scalar Plain
 type RN {{ sc: Sc scs: [Sc!] }}
+input IBoth {{ a: Sc b: Sc2 bs: [Sc2!] }}
+input Outer2 {{ inner: I0 other: Int }}
+input Outer3 {{ o: Outer2 label: String }}
 interface Node {{ id: ID! sc: Sc }}
 type A implements Node {{ id: ID! sc: Sc extra: [Sc] }}
 type B implements Node {{ id: ID! sc: Sc other: Int }}
@@ -65,6 +81,8 @@ type R {{
 {r}
   nested: RN
   plain: Plain
+  s2: Sc2
+  s2l: [Sc2!]
   node: Node
   nodes: [Node!]!
   nodeReq: Node!
@@ -76,6 +94,8 @@ type Query {{
 {q}
   outer(x: Outer): String
   two(a: Sc, b: [Sc!], p: Plain): String
+  two2(a: Sc, b: Sc2, i: IBoth): String
+  outer2(x: Outer2, y: Outer3): String
 }}
 """
 
@@ -96,6 +116,16 @@ CONFIGS = ("type_only", "parse", "serialize", "both")
 
 
 def scalar_section(cfg, style):
+    sec, _ = _scalar_section(cfg, style)
+    sc2 = dict(sec["Sc"])
+    for k in ("parse", "serialize"):
+        if k in sc2:
+            sc2[k] = sc2[k] + "2"
+    sec["Sc2"] = sc2
+    return sec, {}
+
+
+def _scalar_section(cfg, style):
     if cfg == "type_only":
         return {"Sc": {"type": "datetime.datetime"}}, {}
     mod = {"relative": ".scalars_mod", "absolute": "abs_scalars_mod", "deprecated_import_key": ".scalars_mod"}[style]
@@ -115,6 +145,8 @@ def result_ops():
     ops.append(("RNest", "query RNest { r { r0 nested { sc scs } plain } }\n", {"pos:nested_result"}))
     ops.append(("RFrag", "query RFrag { r { ...F nested { ...FN } } }\nfragment F on R { r0 r5 }\nfragment FN on RN { sc scs }\n", {"pos:fragment_mixin"}))
     ops.append(("RUnp", "query RUnp { r { node { id ...FA } } }\nfragment FA on A { sc extra }\n", {"pos:fragment_unpacked"}))
+    ops.append(("RBoth", "query RBoth { r { r0 s2 s2l nested { sc } } }\n", {"pos:two_scalars_same_type"}))
+    ops.append(("RBoth2", "query RBoth2 { r { s2l r5 } }\nquery ROnly2 { r { s2 } }\n", {"pos:two_scalars_same_type"}))
     ops.append(("RAbs", "query RAbs { r { node { id sc ... on A { extra } ... on B { other } } nodes { sc ... on A { id } ... on B { id } } nodeReq { sc ... on A { id } ... on B { id } } } }\n", {"pos:abstract_members"}))
     return ops
 
@@ -124,19 +156,22 @@ def arg_ops():
     ops += [(f"In{i}", f"query In{i}($x: I{i}) {{ in{i}(x: $x) }}\n", [("x", f"I{i}")], {f"shape:{s}", "pos:input_field"}) for i, s in enumerate(corpus.SHAPES)]
     ops.append(("OuterOp", "query OuterOp($x: Outer) { outer(x: $x) }\n", [("x", "Outer")], {"pos:nested_input"}))
     ops.append(("Two", "query Two($a: Sc, $b: [Sc!], $p: Plain) { two(a: $a, b: $b, p: $p) }\n", [("a", "Sc"), ("b", "[Sc!]"), ("p", "Plain")], {"pos:multi_variable"}))
+    ops.append(("Both", "query Both($a: Sc, $b: Sc2, $i: IBoth) { two2(a: $a, b: $b, i: $i) }\n", [("a", "Sc"), ("b", "Sc2"), ("i", "IBoth")], {"pos:two_scalars_same_type"}))
+    ops.append(("Outer2Op", "query Outer2Op($x: Outer2) { outer2(x: $x) }\n", [("x", "Outer2")], {"pos:scalar_only_in_nested_input"}))
+    ops.append(("Outer3Op", "query Outer3Op($y: Outer3) { outer2(y: $y) }\n", [("y", "Outer3")], {"pos:scalar_only_in_nested_input"}))
     ops.append(("ReqA", "query ReqA($a: Sc!) { two(a: $a) }\nquery ReqB($a: Sc!, $c: Sc!) { two(a: $a) t2: two(a: $c) }\nquery ReqC($z: Sc!) { two(a: $z) }\n", [("a", "Sc!")], {"pos:several_operations"},
                 [("ReqA", [("a", "Sc!")]), ("ReqB", [("a", "Sc!"), ("c", "Sc!")]), ("ReqC", [("z", "Sc!")])]))
     return ops
 
 
-def sc_occurrences_in_data(schema, doc, variables, data):
+def sc_occurrences_in_data(schema, doc, variables, data, scalar="Sc"):
     """Raw non-null occurrences of Sc in a response (multiset), with paths."""
     occ = []
     for pos in refexec.walk(schema, doc, variables, data):
         if not isinstance(pos.data, dict):
             continue
         for key, (nodes, fdef) in pos.fields.items():
-            if fdef is None or key not in pos.data or get_named_type(fdef.type).name != "Sc":
+            if fdef is None or key not in pos.data or get_named_type(fdef.type).name != scalar:
                 continue
 
             def flat(v, path):
@@ -151,16 +186,16 @@ def sc_occurrences_in_data(schema, doc, variables, data):
     return occ
 
 
-def spec_sc_occurrences(spec, out):
+def spec_sc_occurrences(spec, out, scalar="Sc"):
     k = spec[0]
-    if k == "custom" and spec[1] == "Sc":
+    if k == "custom" and spec[1] == scalar:
         out.append(spec[2])
     elif k == "list":
         for x in spec[1]:
-            spec_sc_occurrences(x, out)
+            spec_sc_occurrences(x, out, scalar)
     elif k == "input":
         for _, v in spec[2]:
-            spec_sc_occurrences(v, out)
+            spec_sc_occurrences(v, out, scalar)
 
 
 def evaluate(case):
@@ -171,7 +206,7 @@ def evaluate(case):
     out = {"status": "ok", "evals": 0, "problems": [], "outcomes": set()}
     P = out["problems"]
     scalars, _ = scalar_section(cfg, style)
-    options = {"scalars": scalars}
+    options = dict({"scalars": scalars}, **(case.get("options") or {}))
     files = {}
     if cfg != "type_only":
         if style == "absolute":
@@ -196,12 +231,12 @@ def evaluate(case):
             return out
         if cfg == "type_only":
             CALLS, My = [], None
-            raw_of = lambda i: f"2020-01-0{i + 1}T00:00:00"
+            raw_of = lambda i, sc="Sc": f"2020-0{1 if sc == 'Sc' else 2}-0{i + 1}T00:00:00"
             py_of = lambda raw: datetime.datetime.fromisoformat(raw)
         else:
             sm = sys.modules["abs_scalars_mod"] if style == "absolute" else mods["scalars_mod"]
             CALLS, My = sm.CALLS, sm.MyScalar
-            raw_of = lambda i: f"raw{i}"
+            raw_of = lambda i, sc="Sc": f"raw{i}" if sc == "Sc" else f"two{i}"
             py_of = lambda raw: My(raw)
         mname = "".join(("_" + c.lower() if c.isupper() and i else c.lower()) for i, c in enumerate(op[0]))
         from ariadne_codegen.utils import str_to_snake_case
@@ -211,7 +246,7 @@ def evaluate(case):
 
             def handler(request):
                 body = json.loads(request.content)
-                res, doc = refexec.execute(schema, body["query"], body.get("variables") or {}, state["choose"], scalar_values={"Sc": raw_of(0), "Plain": {"p": [1]}})
+                res, doc = refexec.execute(schema, body["query"], body.get("variables") or {}, state["choose"], scalar_values={"Sc": raw_of(0), "Sc2": raw_of(0, "Sc2"), "Plain": {"p": [1]}})
                 state["res"], state["doc"] = res, doc
                 return httpx.Response(200, json={"data": res.data})
             c = clients.make_client(mod.Client, True, handler)
@@ -234,20 +269,21 @@ def evaluate(case):
                 if r[0] != "ok":
                     P.append(("response_rejected", f"{type(r[1]).__name__}: {str(r[1])[:300]}", ctx))
                     continue
-                occ = sc_occurrences_in_data(schema, doc, {}, res.data)
-                parse_calls = Counter(a for f, a in calls if f == "parse")
-                if any(f == "serialize" for f, a in calls):
+                if any(f.startswith("serialize") for f, a in calls):
                     P.append(("serialize_called_on_result", f"{calls}", ctx))
-                if cfg in ("parse", "both"):
-                    want = Counter(repr(v) for _, v in occ)
-                    if parse_calls != want:
-                        P.append(("parse_call_count", f"parse calls {dict(parse_calls)} expected {dict(want)}", ctx))
-                    if "None" in parse_calls:
-                        P.append(("parse_called_with_null", f"{calls}", ctx))
-                for path, raw in occ:
-                    val = get_at(r[1], path)
-                    if val != py_of(raw):
-                        P.append(("parsed_value", f"{path}: {val!r} expected {py_of(raw)!r}", ctx))
+                for scn, fn in (("Sc", "parse"), ("Sc2", "parse2")):
+                    occ = sc_occurrences_in_data(schema, doc, {}, res.data, scn)
+                    parse_calls = Counter(a for f, a in calls if f == fn)
+                    if cfg in ("parse", "both"):
+                        want = Counter(repr(v) for _, v in occ)
+                        if parse_calls != want:
+                            P.append(("parse_call_count", f"{fn} calls {dict(parse_calls)} expected {dict(want)}", ctx))
+                        if "None" in parse_calls:
+                            P.append(("parse_called_with_null", f"{calls}", ctx))
+                    for path, raw in occ:
+                        val = get_at(r[1], path)
+                        if val != py_of(raw):
+                            P.append(("parsed_value", f"{path}: {val!r} expected {py_of(raw)!r}", ctx))
                 out["outcomes"].add("result_parsed")
             # unconfigured scalar passes through unchanged is covered by `plain` in RNest
             return finish(out)
@@ -265,7 +301,7 @@ def arg_position(schema, mod, mname, vars_, cfg, CALLS, py_of, raw_of, out, P):
         menus = {}
         for vn, vt in vars_:
             t = type_from_ast(schema, parse_type(vt))
-            menus[vn] = inputs.menu(t, depth=2, custom={"Sc": [0, 1]}, breadth=3)[:16]
+            menus[vn] = inputs.menu(t, depth=3 if "Outer" in vt else 2, custom={"Sc": [0, 1], "Sc2": [0, 1]}, breadth=3)[:16]
         required = {vn for vn, vt in vars_ if vt.endswith("!")}
         base = {vn: (menus[vn][0] if vn in required else inputs.OMIT) for vn, _ in vars_}
         plans = [dict(base)]
@@ -276,8 +312,8 @@ def arg_position(schema, mod, mname, vars_, cfg, CALLS, py_of, raw_of, out, P):
                 plans.append(p)
         if len(vars_) > 1:
             plans.append({vn: menus[vn][0] for vn, _ in vars_})
-        cb = lambda name, i: py_of(raw_of(i)) if name == "Sc" else i
-        cw = lambda name, i: raw_of(i) if name == "Sc" else i
+        cb = lambda name, i: py_of(raw_of(i, name)) if name in ("Sc", "Sc2") else i
+        cw = lambda name, i: raw_of(i, name) if name in ("Sc", "Sc2") else i
         for plan in plans:
             out["evals"] += 1
             ctx = {"plan": plan}
@@ -297,15 +333,16 @@ def arg_position(schema, mod, mname, vars_, cfg, CALLS, py_of, raw_of, out, P):
             if sent != ref:
                 P.append(("wire_value", f"sent {json.dumps(sent)} expected {json.dumps(ref)}", ctx))
             if cfg in ("serialize", "both"):
-                occ = []
-                for v in plan.values():
-                    if v != inputs.OMIT:
-                        spec_sc_occurrences(v, occ)
-                want = Counter(repr(py_of(raw_of(i))) for i in occ)
-                ser = Counter(a for f, a in calls if f == "serialize")
-                if ser != want:
-                    P.append(("serialize_call_count", f"serialize calls {dict(ser)} expected {dict(want)}", ctx))
-            if any(f == "parse" for f, a in calls):
+                for scn, fn in (("Sc", "serialize"), ("Sc2", "serialize2")):
+                    occ = []
+                    for v in plan.values():
+                        if v != inputs.OMIT:
+                            spec_sc_occurrences(v, occ, scn)
+                    want = Counter(repr(py_of(raw_of(i, scn))) for i in occ)
+                    ser = Counter(a for f, a in calls if f == fn)
+                    if ser != want:
+                        P.append(("serialize_call_count", f"{fn} calls {dict(ser)} expected {dict(want)}", ctx))
+            if any(f.startswith("parse") for f, a in calls):
                 P.append(("parse_called_on_argument", f"{calls}", ctx))
             out["outcomes"].add("argument_serialised")
 
@@ -355,6 +392,9 @@ def build_cases(tier):
             if cfg in ("type_only", "serialize", "both"):
                 for op in (arg_ops() if full else arg_ops()[:3] + arg_ops()[-3:]):
                     cases.append(dict(cfg=cfg, style=style, kind="arg", op=op))
+                    # only the inputs the operations use: every import the kept classes need must still be emitted
+                    if full and ("pos:input_field" in op[3] or "nested" in "".join(op[3]) or "two_scalars" in "".join(op[3])):
+                        cases.append(dict(cfg=cfg, style=style, kind="arg", op=op, options={"include_all_inputs": False}))
     return cases
 
 
@@ -365,8 +405,8 @@ def main(tier):
     results = pool.run_cases(evaluate, cases, timeout=300, progress=200)
     evals, distinct, outcomes = 0, 0, set()
     for case, (st, r) in zip(cases, results):
-        feats = {f"cfg:{case['cfg']}", f"import:{case['style']}", f"kind:{case['kind']}"} | set(case["op"][3] if len(case["op"]) > 3 else case["op"][2])
-        desc = {"scalar_config": case["cfg"], "import_style": case["style"], "query": case["op"][1]}
+        feats = {f"cfg:{case['cfg']}", f"import:{case['style']}", f"kind:{case['kind']}"} | {f"opt:{k}={v}" for k, v in (case.get("options") or {}).items()} | set(case["op"][3] if len(case["op"]) > 3 else case["op"][2])
+        desc = {"scalar_config": case["cfg"], "import_style": case["style"], "query": case["op"][1], "options": case.get("options") or {}}
         if rep.triage:
             rep.seen(feats)
         if st != "ok":
@@ -395,7 +435,7 @@ def replay(path):
     c = rec["case"]
     genpkg.warm()
     for case in build_cases("thorough"):
-        if case["cfg"] == c["scalar_config"] and case["style"] == c["import_style"] and case["op"][1] == c["query"]:
+        if case["cfg"] == c["scalar_config"] and case["style"] == c["import_style"] and case["op"][1] == c["query"] and (case.get("options") or {}) == (c.get("options") or {}):
             st, r = pool.run_forked(evaluate, case)
             print(st, r if st != "ok" else {k: v for k, v in r.items() if k != "problems"})
             hits = [p for p in (r or {}).get("problems", []) if p[0] == rec["clause"]] if st == "ok" else [1]
